@@ -31,6 +31,7 @@ import (
 type Case struct {
 	Op     string  // sign renew rekey revoke revokemtls sshsign sshrenew sshrekey sshrevoke acme | src
 	E, A   int     // enriching / authorizing webhooks configured on the provisioner
+	NoDB   bool    `json:",omitempty"` // the authority runs without a database (db.SimpleDB)
 	Chk    int     // index of the in-process check made to fail by the request's content, -1 = none
 	Faults []Fault `json:",omitempty"`
 	Fn     string  `json:",omitempty"` // src lines: function name
@@ -53,7 +54,7 @@ func (k *Case) render() string {
 			subs = append(subs, f.Sub)
 		}
 	}
-	return fmt.Sprintf("run op=%s e=%d a=%d chk=%s faults=%s sub=%s", k.Op, k.E, k.A, chk, c.List(fs), c.List(subs)) + cs
+	return fmt.Sprintf("run op=%s e=%d a=%d db=%s chk=%s faults=%s sub=%s", k.Op, k.E, k.A, c.B(!k.NoDB), chk, c.List(fs), c.List(subs)) + cs
 }
 
 func hasToken(op string) bool {
@@ -62,6 +63,41 @@ func hasToken(op string) bool {
 		return false
 	}
 	return true
+}
+
+// failClosed evaluates the property itself on what the implementation did, independently of
+// the model: "BROKEN" when the client got a success although a call the request depends on
+// failed decisively, when a certificate / acknowledgement was handed out without the record
+// being written, or when a recorded token was accepted again.
+//
+// A failure is decisive unless it is a read whose error the code may ignore, or a webhook
+// attempt with a retryable failure that is followed by a further attempt at the same kind of
+// webhook (the later attempt decides).
+func failClosed(cl, got string, trace []string, stored, rev, tok int, reuse string, noDB bool) string {
+	if cl == "ok" {
+		for i, ev := range trace {
+			st, o := stepOf(ev), ev[strings.LastIndex(ev, ":")+1:]
+			if o == "ok" || st == "readCert" || st == "readData" {
+				continue
+			}
+			if (st == "enrich" || st == "authorize") && o == "error" && i+1 < len(trace) && stepOf(trace[i+1]) == st {
+				continue
+			}
+			return "BROKEN"
+		}
+		if got == "cert" && stored == 0 && !noDB {
+			return "BROKEN"
+		}
+		if got == "ack" && rev == 0 {
+			return "BROKEN"
+		}
+	} else if got != "none" {
+		return "BROKEN"
+	}
+	if tok > 0 && reuse == "ok" {
+		return "BROKEN"
+	}
+	return "ok"
 }
 
 type result struct {
@@ -117,9 +153,10 @@ func runCase(k *Case) (res result) {
 		cl = "ok"
 	}
 	d := func(t string) int { return after[t] - before[t] }
-	out := fmt.Sprintf("%s got=%s tok=%d stored=%d data=%d rev=%d reuse=%s trace=%s", cl, r.got(),
-		d("used_ott"), d("x509_certs")+d("ssh_certs"), d("x509_certs_data"),
-		d("revoked_x509_certs")+d("revoked_ssh_certs"), reuse, c.List(ev))
+	stored, rev := d("x509_certs")+d("ssh_certs"), d("revoked_x509_certs")+d("revoked_ssh_certs")
+	out := fmt.Sprintf("%s got=%s tok=%d stored=%d data=%d rev=%d reuse=%s fc=%s trace=%s", cl, r.got(),
+		d("used_ott"), stored, d("x509_certs_data"), rev, reuse,
+		failClosed(cl, r.got(), ev, stored, rev, d("used_ott"), reuse, k.NoDB), c.List(ev))
 	return result{out: out, trace: ev}
 }
 
@@ -153,17 +190,21 @@ func stepOf(ev string) string {
 type scenario struct {
 	Op   string
 	E, A int
+	NoDB bool
 	Chks []int // indices of the in-process decisions the request content can make fail
 }
 
 var scenarios = []scenario{
-	{"sign", 0, 0, []int{0, 1, 2}}, {"sign", 2, 1, []int{0, 1, 2}},
-	{"renew", 0, 0, nil}, {"rekey", 0, 0, nil},
-	{"revoke", 0, 0, []int{0}}, {"revokemtls", 0, 0, nil},
+	{"sign", 0, 0, false, []int{0, 1, 2}}, {"sign", 2, 1, false, []int{0, 1, 2}},
+	{"renew", 0, 0, false, nil}, {"rekey", 0, 0, false, nil},
+	{"revoke", 0, 0, false, []int{0}}, {"revokemtls", 0, 0, false, nil},
 	// sshsign: 0 token, 1 options, (2 policy), (3 signing), 4 certificate validators
-	{"sshsign", 0, 0, []int{0, 1, 4}}, {"sshsign", 1, 2, []int{0, 1, 4}},
-	{"sshrenew", 0, 0, []int{0}}, {"sshrekey", 0, 0, []int{0}}, {"sshrevoke", 0, 0, []int{0}},
-	{"acme", 0, 0, []int{0}}, {"acme", 1, 1, []int{0}},
+	{"sshsign", 0, 0, false, []int{0, 1, 4}}, {"sshsign", 1, 2, false, []int{0, 1, 4}},
+	{"sshrenew", 0, 0, false, []int{0}}, {"sshrekey", 0, 0, false, []int{0}}, {"sshrevoke", 0, 0, false, []int{0}},
+	{"acme", 0, 0, false, []int{0}}, {"acme", 1, 1, false, []int{0}},
+	// no database: db.SimpleDB (ErrNotImplemented is tolerated when storing, not when revoking)
+	{"sign", 1, 1, true, []int{0, 2}}, {"renew", 0, 0, true, nil}, {"revoke", 0, 0, true, nil}, {"revokemtls", 0, 0, true, nil},
+	{"sshsign", 0, 1, true, []int{4}}, {"sshrenew", 0, 0, true, nil}, {"sshrevoke", 0, 0, true, nil},
 }
 
 var srcFns = []string{"authorizeToken", "authorizeSign", "signX509", "authorizeRenew", "renewContext", "Revoke",
@@ -251,14 +292,20 @@ func main() {
 
 	// 2. fault-free runs: learn each scenario's sequence of external calls
 	var scs []scenario
-	for _, s := range scenarios {
+	all := scenarios
+	if *pairs { // thorough: larger webhook configurations as well
+		all = append(append([]scenario{}, scenarios...),
+			scenario{"sign", 2, 2, false, nil}, scenario{"sshsign", 2, 2, false, nil}, scenario{"acme", 2, 1, false, nil},
+			scenario{"sign", 2, 1, true, nil})
+	}
+	for _, s := range all {
 		if *only == "" || *only == s.Op {
 			scs = append(scs, s)
 		}
 	}
 	var base []*Case
 	for _, s := range scs {
-		base = append(base, &Case{Op: s.Op, E: s.E, A: s.A, Chk: -1})
+		base = append(base, &Case{Op: s.Op, E: s.E, A: s.A, NoDB: s.NoDB, Chk: -1})
 	}
 	baseRes := emitAll(base)
 
@@ -267,10 +314,10 @@ func main() {
 	var ks []*Case
 	for i, s := range scs {
 		tr := baseRes[i].trace
-		mk := func(fs ...Fault) *Case { return &Case{Op: s.Op, E: s.E, A: s.A, Chk: -1, Faults: fs} }
+		mk := func(fs ...Fault) *Case { return &Case{Op: s.Op, E: s.E, A: s.A, NoDB: s.NoDB, Chk: -1, Faults: fs} }
 		at := func(p int, f Fault) Fault { f.Pos = p; return f }
 		for _, chk := range s.Chks {
-			ks = append(ks, &Case{Op: s.Op, E: s.E, A: s.A, Chk: chk})
+			ks = append(ks, &Case{Op: s.Op, E: s.E, A: s.A, NoDB: s.NoDB, Chk: chk})
 		}
 		// every position, every kind
 		for p, ev := range tr {
@@ -289,7 +336,7 @@ func main() {
 		}
 		// a check failing in a request that also meets a storage fault
 		if len(s.Chks) > 0 && len(tr) > 0 {
-			ks = append(ks, &Case{Op: s.Op, E: s.E, A: s.A, Chk: s.Chks[len(s.Chks)-1], Faults: []Fault{at(0, Fault{Kind: "timeout"})}})
+			ks = append(ks, &Case{Op: s.Op, E: s.E, A: s.A, NoDB: s.NoDB, Chk: s.Chks[len(s.Chks)-1], Faults: []Fault{at(0, Fault{Kind: "timeout"})}})
 		}
 		// pairs of positions (positions after the first fault may name different calls, or none)
 		if *pairs {
